@@ -60,7 +60,7 @@ CALLS = ["greedy", "greedy_satprof", "maxwelfare", "mes", "mes_satprof", "mes_ir
          "popularity", "swc", "satprofile", "sat_calls", "stats", "jr", "priceable", "project_loss",
          "eff_support", "eff_supports", "cohesive", "validate_price", "greedy_analytics", "mes_analytics",
          "mes_skipped", "mes_skipped_plain", "phragmen_loads", "phragmen_loads_irr", "completion_phragmen",
-         "priceable_payments"]
+         "priceable_payments", "category"]
 ENTRY = {"greedy": E_GREEDY, "greedy_satprof": E_GREEDY, "maxwelfare": E_MAXW, "mes": E_MES, "mes_satprof": E_MES,
          "mes_irr": E_MES, "mes_iter": E_MESIT, "phragmen": E_PHRAG, "phragmen_irr": E_PHRAG, "completion": E_COMPL,
          "completion_irr": E_COMPL, "increase": E_INCR, "increase_irr": E_INCR, "increase_phragmen": E_INCR,
@@ -68,7 +68,7 @@ ENTRY = {"greedy": E_GREEDY, "greedy_satprof": E_GREEDY, "maxwelfare": E_MAXW, "
          "priceable": E_RO, "project_loss": E_LOSS, "eff_support": E_EFFS, "eff_supports": E_EFFSS,
          "cohesive": E_RO, "validate_price": E_RO, "greedy_analytics": E_GREEDY, "mes_analytics": E_MES,
          "mes_skipped": E_MES, "mes_skipped_plain": E_MES, "phragmen_loads": E_PHRAG, "phragmen_loads_irr": E_PHRAG,
-         "completion_phragmen": E_COMPL, "priceable_payments": E_RO}
+         "completion_phragmen": E_COMPL, "priceable_payments": E_RO, "category": E_RO}
 # how the shared initial allocation is built: a plain list, a BudgetAllocation without details, the outcome of an
 # earlier analytics=True run (its details object is then caller-owned state), or a BudgetAllocation with fresh
 # details of either kind
@@ -85,7 +85,7 @@ WRAPPER_CALLS = ["increase", "increase", "increase_irr", "increase_phragmen", "c
 
 
 def budget(tier):
-    return 500 if tier == "quick" else 6000
+    return 420 if tier == "quick" else 6000
 
 
 def gen(rng, i, tier):
@@ -149,6 +149,28 @@ def gen(rng, i, tier):
             ppkeys = sorted(ppkeys + ["initial_loads"])
         if k > 1:
             calls[(j + 1) % k] = rng.choice(LOADS_CALLS + ["phragmen", "phragmen_irr"])
+    # instance / project / ballot METADATA (all caller-owned, all snapshotted): categories and targets carried by the
+    # projects, the sets declared at instance level -- which sometimes miss a category that a project carries --,
+    # instance.meta, instance.project_meta, ballot.meta
+    CATS = ["c0", "c1", "c2"]
+    pcats = [sorted(rng.sample(CATS, rng.choice([0, 1, 1, 1, 2]))) for _ in range(m)]
+    ptars = [sorted(rng.sample(["t0", "t1"], rng.choice([0, 1, 1, 2]))) for _ in range(m)]
+    carried = sorted({c_ for cs in pcats for c_ in cs})
+    mode = rng.randrange(6)
+    if mode <= 1 or not carried:
+        icats = carried
+    elif mode <= 3:
+        icats = [c_ for c_ in carried if c_ != rng.choice(carried)]      # one carried category is not declared
+    elif mode == 4:
+        icats = ["c0", "c1"]
+    else:
+        icats = sorted(set(carried) | {"c9"})
+    meta = {"pcats": pcats, "ptars": ptars, "icats": icats,
+            "itars": sorted(rng.sample(["t0", "t1", "t2"], rng.randrange(0, 4)))}
+    if i % 5 == 1:
+        calls[rng.randrange(k)] = "category"
+    if i % 5 == 3:
+        calls[rng.randrange(k)] = rng.choice(["cohesive", "jr", "stats"])   # readers of the instance itself
     init_kind = rng.choice(INIT_KINDS)
     if init_kind != "list" and rng.random() < 0.7:
         calls[rng.randrange(k)] = rng.choice(ANALYTICS_CALLS)
@@ -167,6 +189,7 @@ def gen(rng, i, tier):
             "pkeys": pkeys, "plkeys": [keyset(PKEYS, 0.12), keyset(PKEYS, 0.12)], "ppkeys": ppkeys,
             "pinit": sorted(pinit), "pres": rng.random() < 0.5, "panalytics": rng.random() < 0.5,
             "init_kind": init_kind,
+            "meta": meta,
             "loads": [pb.qs(rng.choice([0, 0, 1, 1, Fraction(1, 2), Fraction(1, 3), 2])) for _ in range(n)],
             "explicit_init": rng.random() < 0.5, "explicit_res": rng.choice([None, None, True, False]),
             "solver": any(c in SOLVER_CALLS for c in calls)}
@@ -269,7 +292,24 @@ def build(case):
     for j, p in enumerate(projs):
         p.categories = {"c%d" % (j % 2)}
     inst.categories = {"c0", "c1"}
-    prof = pb.make_approval_profile(inst, projs, case["ballots"], case["multi"])
+    md = case.get("meta")
+    if md:
+        for j, p in enumerate(projs):
+            p.categories = set(md["pcats"][j]) if j < len(md["pcats"]) else set()
+            p.targets = set(md["ptars"][j]) if j < len(md["ptars"]) else set()
+        inst.categories = set(md["icats"])
+        inst.targets = set(md["itars"])
+        inst.meta = {"description": "case", "num_projects": str(len(projs)), "budget": str(case["budget"])}
+        inst.project_meta = {p: {"name": str(p.name), "cost": str(p.cost)} for p in projs}
+    if md:
+        from pabutools.election import ApprovalBallot, ApprovalProfile
+
+        prof = ApprovalProfile([ApprovalBallot([projs[j] for j in b], name="v%d" % v, meta={"voter_id": str(v)})
+                                for v, b in enumerate(case["ballots"])], instance=inst)
+        if case["multi"]:
+            prof = prof.as_multiprofile()
+    else:
+        prof = pb.make_approval_profile(inst, projs, case["ballots"], case["multi"])
     sat = _sat(case["sat"])
     satprof = prof.as_sat_profile(sat)
     init = [projs[j] for j in case["init"]]
@@ -362,7 +402,7 @@ def _guarded(f, *a):
     exception is then the answer (the property is about the arguments, which are snapshotted all the same)"""
     try:
         return f(*a)
-    except (ValueError, ZeroDivisionError) as e:
+    except (ValueError, ZeroDivisionError, KeyError) as e:
         return "raised " + type(e).__name__
 
 
@@ -475,6 +515,9 @@ def do_call(name, o, case):
         return [jr.is_EJR_approval(inst, prof, sat, alloc), jr.is_PJR_approval(inst, prof, sat, alloc),
                 jr.is_EJR_one_approval(inst, prof, sat, alloc), jr.is_strong_EJR_approval(inst, prof, sat, alloc),
                 jr.is_PJR_any_approval(inst, prof, sat, alloc)]
+    if name == "category":
+        return [_guarded(an.category_proportionality, inst, prof, alloc),
+                _guarded(an.category_proportionality, inst, prof, list(inst))]
     if name == "cohesive":
         return [len(list(coh.cohesive_groups(inst, prof))), len(list(coh.cohesive_groups(inst, prof, alloc)))]
     if name == "priceable":
